@@ -66,7 +66,7 @@ func runC19(c *Check) {
 			for _, hc := range m.HCalls {
 				d := false
 				for _, a := range acks {
-					if Dominates(m.Inner, a, hc) {
+					if _, isCall := a.(*ssa.Call); isCall && Dominates(m.Inner, a, hc) {
 						d = true
 					}
 				}
